@@ -640,10 +640,11 @@ func (m *intraProxyManager) ensureStream(
 	logger.Debug("ensureStream")
 	key := peerStreamKey{targetShard: targetShard, sourceShard: sourceShard}
 
-	// Fast path: already exists
+	// Fast path: already exists. A receiver that is still opening its stream counts as well: a second receiver for the
+	// same pair would take over its registry entries and leave it running with nobody able to stop it.
 	m.streamsMu.RLock()
 	if ps, ok := m.peers[peerNodeName]; ok && ps != nil {
-		if r, ok2 := ps.receivers[key]; ok2 && r != nil && r.streamClient != nil {
+		if r, ok2 := ps.receivers[key]; ok2 && r != nil {
 			m.streamsMu.RUnlock()
 			logger.Debug("ensureStream reused")
 			return nil
@@ -673,6 +674,12 @@ func (m *intraProxyManager) ensureStream(
 	// initialize shutdown handle and register it for lifecycle management
 	recv.shutdown = channel.NewShutdownOnce()
 	m.streamsMu.Lock()
+	if existing, ok := ps.receivers[key]; ok && existing != nil {
+		// another pass got here first
+		m.streamsMu.Unlock()
+		logger.Debug("ensureStream reused")
+		return nil
+	}
 	ps.receivers[key] = recv
 	ps.recvShutdown[key] = recv.shutdown
 	m.streamsMu.Unlock()
